@@ -387,6 +387,9 @@ pub mod collections {
             fn size_hint(&self) -> (usize, Option<usize>) {
                 self.inner.size_hint()
             }
+            fn nth(&mut self, n: usize) -> Option<&'a T> {
+                self.inner.nth(n)
+            }
         }
         impl<T> ExactSizeIterator for Iter<'_, T> {}
         pub struct IterMut<'a, T> {
